@@ -48,20 +48,28 @@ def sh(cmd, cwd=None, env=None, timeout=None, check=True, input=None):
 # build
 
 def build(race=False):
-    """Build the harness (with -tags verif) and cmd/gojq from /repo's working tree."""
-    os.makedirs(BUILD, exist_ok=True)
+    """Build the harness (with -tags verif) and cmd/gojq from the repository's working tree.
+
+    The tree is /repo, or $VERIF_REPO (a scratch worktree used when trying mutations): in that case a private
+    copy of the harness module and a private output directory are used so that nothing shared is touched."""
     hdir = os.path.join(VERIF, "harness")
-    shutil.copyfile(os.path.join(REPO, "go.sum"), os.path.join(hdir, "go.sum"))
-    modfile = os.path.join(hdir, "go.mod")
-    txt = open(modfile).read()
-    want = "replace github.com/itchyny/gojq => %s" % REPO
-    if want not in txt:
-        txt = re.sub(r"replace github.com/itchyny/gojq => .*", want, txt)
+    outdir = BUILD
+    if os.path.realpath(REPO) != "/repo":
+        tag = hashlib.sha1(os.path.realpath(REPO).encode()).hexdigest()[:10]
+        outdir = os.path.join(BUILD, "alt-" + tag)
+        alt = os.path.join(outdir, "harness")
+        shutil.rmtree(alt, ignore_errors=True)
+        shutil.copytree(hdir, alt)
+        hdir = alt
+        modfile = os.path.join(hdir, "go.mod")
+        txt = re.sub(r"replace github.com/itchyny/gojq => .*", "replace github.com/itchyny/gojq => %s" % os.path.realpath(REPO), open(modfile).read())
         open(modfile, "w").write(txt)
-    vh = os.path.join(BUILD, "vh-race" if race else "vh")
+    os.makedirs(outdir, exist_ok=True)
+    shutil.copyfile(os.path.join(REPO, "go.sum"), os.path.join(hdir, "go.sum"))
+    vh = os.path.join(outdir, "vh-race" if race else "vh")
     cmd = ["go", "build", "-tags", "verif"] + (["-race"] if race else []) + ["-o", vh, "./cmd/vh"]
     sh(cmd, cwd=hdir, env=GOENV, timeout=900)
-    gojq = os.path.join(BUILD, "gojq")
+    gojq = os.path.join(outdir, "gojq")
     sh(["go", "build", "-o", gojq, "./cmd/gojq"], cwd=REPO, env=GOENV, timeout=900)
     return vh, gojq
 
